@@ -3,6 +3,7 @@ package main
 import (
 	"fmt"
 	"go/token"
+	"go/types"
 	"regexp/syntax"
 	"strings"
 
@@ -14,8 +15,8 @@ import (
 func init() {
 	register(Property{ID: "C42", Level: "other", Run: runC42,
 		Technique: "static analysis: structural rules on the SSA of staticsources.resolveSource and forward.resolveDest (substitution chain, induction variable of the group loop, operand bindings), sibling agreement of the two resolvers, module-wide field-store provenance of the name/groups/query operands, constant evaluation of the path-name charset",
-		Text: "Decides for both resolvers: every substitution is strings.ReplaceAll (all occurrences) chained on the template; the group loop starts at len(matches)-1, steps by -1 and stops below 1, so $G10 is substituted before $G1; the placeholder is \"$G\"+FormatInt(i,10) and the replacement is matches[i] for the same i; $MTX_PATH is replaced by the path-name parameter and $MTX_QUERY by the query parameter; the query - the only operand with arbitrary client characters - is substituted last and its result is returned without further substitution; names and groups cannot contain '$' because the path-name charset excludes it; the operands handed to the resolvers are the path's own name, the capture groups FindPathConf returned for that very name, and the on-demand request query; the string handed to the connector (StaticSourceRunParams.ResolvedSource, the Dest field of every forwarder) originates on every path from a resolver call evaluated for the current run, or from a cache field whose every store is a resolver result or \"\" and which is reset after every store to a field the resolution reads (Conf, Matches, query, PathName). Does not decide strings.ReplaceAll/strconv semantics or templates that splice a placeholder out of a group value and adjacent literal text.",
-		Note: "trusted: strings.ReplaceAll, strconv.FormatInt, regexp group numbering (FindStringSubmatch index n = group n); path names are validated (C06); configuration templates are operator-controlled"})
+		Text:      "Decides for both resolvers: every substitution is strings.ReplaceAll (all occurrences) chained on the template; the group loop starts at len(matches)-1, steps by -1 and stops below 1, so $G10 is substituted before $G1; the placeholder is \"$G\"+FormatInt(i,10) and the replacement is matches[i] for the same i; $MTX_PATH is replaced by the path-name parameter and $MTX_QUERY by the query parameter; the query - the only operand with arbitrary client characters - is substituted last and its result is returned without further substitution; names and groups cannot contain '$' because the path-name charset excludes it; the operands handed to the resolvers are the path's own name, the capture groups FindPathConf returned for that very name, and the on-demand request query; the string handed to the connector (StaticSourceRunParams.ResolvedSource, the Dest field of every forwarder) originates on every path from a resolver call evaluated for the current run, or from a cache field whose every store is a resolver result or \"\" and which is reset after every store to a field the resolution reads (Conf, Matches, query, PathName). Does not decide strings.ReplaceAll/strconv semantics or templates that splice a placeholder out of a group value and adjacent literal text.",
+		Note:      "trusted: strings.ReplaceAll, strconv.FormatInt, regexp group numbering (FindStringSubmatch index n = group n); path names are validated (C06); configuration templates are operator-controlled"})
 	addMutants(
 		Mutant{"C42", "source-groups-ascending", "internal/staticsources/handler.go",
 			"for i := len(matches) - 1; i >= 1; i-- {", "for i := 1; i < len(matches); i++ {", "C42.group.order"},
@@ -46,13 +47,21 @@ func init() {
 	)
 }
 
+// c42Subst is one substitution site. The operands are context-sensitive values
+// (prop_gen_c42.go): a placeholder, an index or a whole substitution that was
+// moved into a new helper is the same operand as when it was written in place.
 type c42Subst struct {
 	call    *ssa.Call
+	env     *envG4 // call sites of the new helpers around the call (nil: in the resolver itself)
 	kind    string // "group" | "$MTX_PATH" | "$MTX_QUERY" | other constant
-	idx     ssa.Value
+	idx     rvalG4
 	base    int64
-	repl    ssa.Value
-	subject ssa.Value
+	repl    rvalG4
+	subject rvalG4
+}
+
+func (s *c42Subst) is(x rvalG4) bool {
+	return x.v == ssa.Value(s.call) && (!isNewHelper(s.call.Parent()) || sameEnvG4(x.env, s.env))
 }
 
 func runC42(c *Ctx) {
@@ -62,6 +71,7 @@ func runC42(c *Ctx) {
 		return
 	}
 	c.Explain = "E1/E7 on staticsources.resolveSource(s, matches, query) and forward.resolveDest(dest, pathName, matches): all_occurrences (only strings.ReplaceAll), chain (each substitution works on the template or on the previous result; the returned value is the end of the chain), group.order (induction variable = phi(len(matches)-1, i-1), loop guard i >= 1), group.binding (\"$G\"+strconv.FormatInt(int64(i),10) ↦ matches[i]), operand ($MTX_PATH ↦ pathName, $MTX_QUERY ↦ query), query_last (the $MTX_QUERY result only flows to the return), placeholders (exact placeholder set per resolver), dollar_free (conf.rePathName admits no '$'), provenance (E2 over all stores of Handler.Matches/.query, DestHandler/Manager.PathName/.Matches, path.name/.matches and the createPath call sites: groups are FindPathConf(_, name)#1 for the same name), delivered (value-origin trace of every store to StaticSourceRunParams.ResolvedSource and forward/*.Dest.Dest through locals, captured variables and phis: leaves must be resolver calls; a struct-field leaf is a cache and must satisfy delivered.cache: fills are resolver results or \"\", operand-field stores are followed by a reset). " +
+		"Operands are compared as context-sensitive values (prop_gen_c42.go): conversions, named locals, parameters and results of new helpers are looked through, substitution sites are counted per call site of a forwarding helper, the group index may be counter+constant, the numeral may be FormatInt/FormatUint/Itoa/Sprintf(\"$G%d\"). " +
 		"NOT decided: library semantics; a template that splices '$G<n>' out of a group value and neighbouring literal characters."
 	c.Assume = []string{
 		"strings.ReplaceAll replaces every non-overlapping occurrence; strconv.FormatInt(i,10) is the decimal numeral",
@@ -81,33 +91,120 @@ func runC42(c *Ctx) {
 	c42Delivered(c, p, src, dst)
 }
 
-func c42Classify(call *ssa.Call) *c42Subst {
+// c42Variadic returns the elements of the slice go/ssa builds for the variadic
+// arguments of a call (`new [n]T (varargs)`, one store per element, `slice`).
+func c42Variadic(v ssa.Value) ([]ssa.Value, bool) {
+	sl, ok := v.(*ssa.Slice)
+	if !ok {
+		return nil, false
+	}
+	a, ok := sl.X.(*ssa.Alloc)
+	if !ok || a.Comment != "varargs" {
+		return nil, false
+	}
+	var out []ssa.Value
+	for _, r := range *a.Referrers() {
+		ia, ok := r.(*ssa.IndexAddr)
+		if !ok {
+			continue
+		}
+		k, isK := constIntB(ia.Index)
+		if !isK || ia.Referrers() == nil {
+			return nil, false
+		}
+		for _, rr := range *ia.Referrers() {
+			if st, ok := rr.(*ssa.Store); ok && st.Addr == ssa.Value(ia) {
+				for int64(len(out)) <= k {
+					out = append(out, nil)
+				}
+				out[k] = st.Val
+			}
+		}
+	}
+	for _, e := range out {
+		if e == nil {
+			return nil, false
+		}
+	}
+	return out, true
+}
+
+func c42IsInteger(v ssa.Value) bool {
+	b, ok := v.Type().Underlying().(*types.Basic)
+	return ok && b.Info()&types.IsInteger != 0
+}
+
+// c42Classify names what a substitution replaces. The group placeholder is
+// "$G" followed by the decimal numeral of an integer, however that is spelled:
+// "$G"+strconv.FormatInt(int64(i), 10), "$G"+strconv.Itoa(i),
+// "$G"+strconv.FormatUint(uint64(i), 10), fmt.Sprintf("$G%d", i) - in place,
+// through a named local, or computed by a new helper.
+func c42Classify(call *ssa.Call, env *envG4) *c42Subst {
 	args := call.Call.Args
-	s := &c42Subst{call: call, subject: args[0], repl: args[2]}
-	if k, ok := constStringB(args[1]); ok {
+	s := &c42Subst{call: call, env: env, subject: rvalG4{args[0], env}, repl: peelG4(rvalG4{args[2], env})}
+	ph := peelG4(rvalG4{args[1], env})
+	if k, ok := constStringB(ph.v); ok {
 		s.kind = k
 		return s
 	}
-	if bo, ok := args[1].(*ssa.BinOp); ok && bo.Op == token.ADD {
-		if pre, ok := constStringB(bo.X); ok && pre == "$G" {
-			if fc, ok := bo.Y.(*ssa.Call); ok {
-				switch {
-				case isCallTo(fc, "strconv.FormatInt") && len(fc.Call.Args) == 2:
-					s.kind = "group"
-					s.idx = stripConv(fc.Call.Args[0])
-					s.base, _ = constIntB(fc.Call.Args[1])
-				case isCallTo(fc, "strconv.Itoa") && len(fc.Call.Args) == 1:
-					s.kind = "group"
-					s.idx = stripConv(fc.Call.Args[0])
-					s.base = 10
+	numeral := func(y rvalG4) {
+		fc, ok := y.v.(*ssa.Call)
+		if !ok {
+			return
+		}
+		switch {
+		case (isCallTo(fc, "strconv.FormatInt") || isCallTo(fc, "strconv.FormatUint")) && len(fc.Call.Args) == 2:
+			if b, isK := constIntB(peelG4(rvalG4{fc.Call.Args[1], y.env}).v); isK {
+				s.kind = "group"
+				s.idx = peelG4(rvalG4{fc.Call.Args[0], y.env})
+				s.base = b
+			}
+		case isCallTo(fc, "strconv.Itoa") && len(fc.Call.Args) == 1:
+			s.kind = "group"
+			s.idx = peelG4(rvalG4{fc.Call.Args[0], y.env})
+			s.base = 10
+		}
+	}
+	switch x := ph.v.(type) {
+	case *ssa.BinOp:
+		if x.Op == token.ADD {
+			if pre, ok := constStringB(peelG4(rvalG4{x.X, ph.env}).v); ok && pre == "$G" {
+				numeral(peelG4(rvalG4{x.Y, ph.env}))
+			}
+		}
+	case *ssa.Call:
+		// fmt.Sprintf("$G%d", i) with an integer i is the same string
+		if isCallTo(x, "fmt.Sprintf") && len(x.Call.Args) == 2 {
+			if f, ok := constStringB(peelG4(rvalG4{x.Call.Args[0], ph.env}).v); ok && f == "$G%d" {
+				if va, ok := c42Variadic(x.Call.Args[1]); ok && len(va) == 1 {
+					if i := peelG4(rvalG4{va[0], ph.env}); c42IsInteger(i.v) {
+						s.kind, s.idx, s.base = "group", i, 10
+					}
 				}
 			}
 		}
 	}
 	if s.kind == "" {
-		s.kind = "?" + desc(args[1])
+		s.kind = "?" + descG4(rvalG4{args[1], env})
 	}
 	return s
+}
+
+// c42Returns: the resolver's own returns (a `return helper(..)` is looked
+// through at value level by altsG4).
+func c42Returns(fn *ssa.Function) []*ssa.Return {
+	var out []*ssa.Return
+	for _, b := range fn.Blocks {
+		if b.Comment == "recover" {
+			continue
+		}
+		for _, i := range b.Instrs {
+			if r, ok := i.(*ssa.Return); ok {
+				out = append(out, r)
+			}
+		}
+	}
+	return out
 }
 
 // c42Resolver checks one resolver. tmpl/matches are parameter indices;
@@ -115,8 +212,15 @@ func c42Classify(call *ssa.Call) *c42Subst {
 func c42Resolver(c *Ctx, p *Prog, fn *ssa.Function, tmpl, matches int, named map[string]int) {
 	key := fnName(fn) + ": "
 	// only ReplaceAll
+	// The substitution sites are enumerated per call site of the new helpers
+	// around them: `subst(s, "$MTX_PATH", name)` and `subst(s, "$G"+.., m[i])`
+	// through one forwarding helper are two substitutions, not one.
 	var substs []*c42Subst
-	eachInstr(fn, func(i ssa.Instruction) {
+	isParam := func(x rvalG4, k int) bool {
+		par, ok := x.v.(*ssa.Parameter)
+		return ok && par.Parent() == fn && paramIndex(par) == k
+	}
+	eachInstrCtxG4(fn, nil, func(i ssa.Instruction, env *envG4) {
 		cc := callCommon(i)
 		if cc == nil {
 			return
@@ -125,21 +229,29 @@ func c42Resolver(c *Ctx, p *Prog, fn *ssa.Function, tmpl, matches int, named map
 		if strings.HasPrefix(n, "strings.Replace") || strings.HasPrefix(n, "(*strings.Replacer)") || strings.HasPrefix(n, "strings.NewReplacer") || strings.HasPrefix(n, "(*regexp.Regexp).Replace") {
 			ok := n == "strings.ReplaceAll"
 			if !ok && n == "strings.Replace" && len(cc.Args) == 4 {
-				if k, isC := constIntB(cc.Args[3]); isC && k < 0 {
+				if k, isC := constIntB(peelG4(rvalG4{cc.Args[3], env}).v); isC && k < 0 {
 					ok = true
 				}
 			}
 			ph := ""
 			if len(cc.Args) > 1 {
-				ph = desc(cc.Args[1])
+				ph = descG4(rvalG4{cc.Args[1], env})
 			}
 			c.Check("C42.all_occurrences", key+"substitution of "+ph+" replaces every occurrence (strings.ReplaceAll)", ok, p.Pos(i.Pos()), n)
 			if call, isCall := i.(*ssa.Call); isCall && ok && len(cc.Args) >= 3 {
-				substs = append(substs, c42Classify(call))
+				substs = append(substs, c42Classify(call, env))
 			}
 		}
 	})
 	c.Floor("C42.substitutions:"+fnName(fn), len(substs), 2)
+	substOf := func(x rvalG4) *c42Subst {
+		for _, s := range substs {
+			if s.is(x) {
+				return s
+			}
+		}
+		return nil
+	}
 
 	// placeholder set
 	seen := map[string]int{}
@@ -160,83 +272,51 @@ func c42Resolver(c *Ctx, p *Prog, fn *ssa.Function, tmpl, matches int, named map
 	}
 
 	// chain: subject is the template, a previous result, or a phi of those; result is used
-	isChain := func(v ssa.Value) bool {
-		ok := true
-		var walk func(v ssa.Value, seen map[ssa.Value]bool)
-		walk = func(v ssa.Value, seenV map[ssa.Value]bool) {
-			if seenV[v] {
-				return
-			}
-			seenV[v] = true
-			switch x := v.(type) {
-			case *ssa.Parameter:
-				if paramIndex(x) != tmpl {
-					ok = false
-				}
-			case *ssa.Phi:
-				for _, e := range x.Edges {
-					walk(e, seenV)
-				}
-			case *ssa.Call:
-				isS := false
-				for _, s := range substs {
-					if s.call == x {
-						isS = true
-					}
-				}
-				if !isS {
-					ok = false
-				}
-			default:
-				ok = false
+	// every alternative a value stands for (phi edges, returns of a new helper)
+	// is the resolver's template parameter or the result of a substitution
+	isChain := func(x rvalG4) bool {
+		alts := altsG4(x)
+		for _, a := range alts {
+			if !isParam(a, tmpl) && substOf(a) == nil {
+				return false
 			}
 		}
-		walk(v, map[ssa.Value]bool{})
-		return ok
+		return len(alts) > 0
 	}
 	for _, s := range substs {
-		c.Check("C42.chain", key+"substitution of "+s.kind+" works on the template or on the previous result", isChain(s.subject), p.Pos(s.call.Pos()), desc(s.subject))
+		c.Check("C42.chain", key+"substitution of "+s.kind+" works on the template or on the previous result", isChain(s.subject), p.Pos(s.call.Pos()), descG4(s.subject))
 		c.Check("C42.chain", key+"result of substituting "+s.kind+" is not dropped", len(*s.call.Referrers()) > 0, p.Pos(s.call.Pos()), "")
 	}
-	for _, r := range returnsOf(fn) {
-		v := retVal(r, 0)
+	for _, r := range c42Returns(fn) {
+		v := rvalG4{retVal(r, 0), nil}
 		good := isChain(v)
-		if _, isPar := v.(*ssa.Parameter); isPar {
+		if isParam(peelG4(v), tmpl) {
 			good = false
 		}
 		// every substitution must be upstream of the returned value
-		up := map[ssa.Value]bool{}
-		var collect func(v ssa.Value)
-		collect = func(v ssa.Value) {
-			if up[v] {
-				return
-			}
-			up[v] = true
-			switch x := v.(type) {
-			case *ssa.Phi:
-				for _, e := range x.Edges {
-					collect(e)
-				}
-			case *ssa.Call:
-				if len(x.Call.Args) > 0 {
-					collect(x.Call.Args[0])
+		up := map[*c42Subst]bool{}
+		var collect func(x rvalG4)
+		collect = func(x rvalG4) {
+			for _, a := range altsG4(x) {
+				if s := substOf(a); s != nil && !up[s] {
+					up[s] = true
+					collect(s.subject)
 				}
 			}
 		}
 		collect(v)
 		for _, s := range substs {
-			if !up[s.call] {
+			if !up[s] {
 				good = false
 			}
 		}
-		c.Check("C42.chain", key+"the returned string is the end of the substitution chain", good, p.Pos(posOf(r, fn)), desc(v))
+		c.Check("C42.chain", key+"the returned string is the end of the substitution chain", good, p.Pos(posOf(r, fn)), desc(v.v))
 	}
 
 	// named operands
 	for _, s := range substs {
 		if want, ok := named[s.kind]; ok {
-			par, isPar := s.repl.(*ssa.Parameter)
-			c.Check("C42.operand", key+s.kind+" is replaced by parameter #"+itoa(want), isPar && paramIndex(par) == want, p.Pos(s.call.Pos()), desc(s.repl))
+			c.Check("C42.operand", key+s.kind+" is replaced by parameter #"+itoa(want), isParam(s.repl, want), p.Pos(s.call.Pos()), descG4(s.repl))
 		}
 	}
 
@@ -245,70 +325,119 @@ func c42Resolver(c *Ctx, p *Prog, fn *ssa.Function, tmpl, matches int, named map
 		if s.kind != "group" {
 			continue
 		}
-		ph, isPhi := s.idx.(*ssa.Phi)
+		// The group index is counter+off for a loop counter (a phi of an initial
+		// value and counter-1) and a constant off: `for i := len(m)-1; i >= 1; i--`
+		// uses i itself, `for n := len(m); n > 1; n-- { i := n-1 ..` uses n-1; both
+		// enumerate len(m)-1, ..., 1. All three obligations are stated on the
+		// index, i.e. after adding off.
+		ctr, off := c42Affine(s.idx)
+		ph, isPhi := ctr.v.(*ssa.Phi)
 		okInit, okStep := false, false
 		if isPhi && len(ph.Edges) == 2 {
 			for _, e := range ph.Edges {
-				bo, ok := e.(*ssa.BinOp)
-				if !ok || bo.Op != token.SUB {
+				b, d := c42Affine(rvalG4{e, ctr.env})
+				if sameG4(b, ctr) {
+					okStep = okStep || d == -1
 					continue
 				}
-				one, isOne := constIntB(bo.Y)
-				if !isOne || one != 1 {
-					continue
-				}
-				if bo.X == ssa.Value(ph) {
-					okStep = true
-				} else if desc(bo.X) == fmt.Sprintf("len($%d)", matches) {
-					okInit = true
+				if l, ok := b.v.(*ssa.Call); ok && len(l.Call.Args) == 1 {
+					if bi, isB := l.Call.Value.(*ssa.Builtin); isB && bi.Name() == "len" && isParam(peelG4(rvalG4{l.Call.Args[0], b.env}), matches) {
+						okInit = okInit || d+off == -1
+					}
 				}
 			}
 		}
-		c.Check("C42.group.order", key+"group index starts at len(matches)-1", okInit, p.Pos(s.call.Pos()), desc(s.idx))
-		c.Check("C42.group.order", key+"group index decreases by one per iteration (so $G10 is handled before $G1)", okStep, p.Pos(s.call.Pos()), desc(s.idx))
-		// loop guard: i >= 1 (or i > 0) holds at the substitution, and is the loop's only exit
+		c.Check("C42.group.order", key+"group index starts at len(matches)-1", okInit, p.Pos(s.call.Pos()), descG4(s.idx))
+		c.Check("C42.group.order", key+"group index decreases by one per iteration (so $G10 is handled before $G1)", okStep, p.Pos(s.call.Pos()), descG4(s.idx))
+		// loop guard: index >= 1 (in any spelling: i >= 1, i > 0, !(i < 1), 1 <= i,
+		// n > 1 for index n-1, ...) holds at the substitution, also when the
+		// substitution sits in a new helper called from the loop body
 		lower := false
-		for _, g := range guardsOf(s.call) {
-			bo, ok := g.Cond.(*ssa.BinOp)
-			if !ok || stripConv(bo.X) != s.idx {
+		var gs []string
+		for _, g := range guardsG4(s.call, s.env) {
+			gs = append(gs, litOf(g.Cond.v, g.Outcome).String())
+			bo, ok := g.Cond.v.(*ssa.BinOp)
+			if !ok {
 				continue
 			}
-			k, isK := constIntB(bo.Y)
-			if !isK {
+			x, dx := c42Affine(rvalG4{bo.X, g.Cond.env})
+			y, dy := c42Affine(rvalG4{bo.Y, g.Cond.env})
+			op := bo.Op
+			if _, isK := constIntB(x.v); isK && sameG4(y, ctr) { // constant on the left: mirror
+				x, dx, y, dy = y, dy, x, dx
+				switch op {
+				case token.LSS:
+					op = token.GTR
+				case token.GTR:
+					op = token.LSS
+				case token.LEQ:
+					op = token.GEQ
+				case token.GEQ:
+					op = token.LEQ
+				}
+			}
+			k, isK := constIntB(y.v)
+			if !isK || !sameG4(x, ctr) {
 				continue
 			}
+			// (ctr + dx) op (k + dy)  <=>  index op k + dy - dx + off
+			k = k + dy - dx + off
 			switch {
-			case bo.Op == token.GEQ && g.Outcome && k == 1, bo.Op == token.GTR && g.Outcome && k == 0,
-				bo.Op == token.LSS && !g.Outcome && k == 1, bo.Op == token.LEQ && !g.Outcome && k == 0:
+			case op == token.GEQ && g.Outcome && k == 1, op == token.GTR && g.Outcome && k == 0,
+				op == token.LSS && !g.Outcome && k == 1, op == token.LEQ && !g.Outcome && k == 0:
 				lower = true
 			}
 		}
-		c.Check("C42.group.order", key+"the loop runs exactly while the index is ≥ 1 (group 0 is the whole match, group 1 is not skipped)", lower, p.Pos(s.call.Pos()), guardStr(s.call))
+		c.Check("C42.group.order", key+"the loop runs exactly while the index is ≥ 1 (group 0 is the whole match, group 1 is not skipped)", lower, p.Pos(s.call.Pos()), "["+strings.Join(gs, " ∧ ")+"]")
 		// binding
 		c.Check("C42.group.binding", key+"placeholder numeral is decimal", s.base == 10, p.Pos(s.call.Pos()), fmt.Sprintf("base %d", s.base))
 		okRepl := false
-		if ld, ok := s.repl.(*ssa.UnOp); ok && ld.Op == token.MUL {
+		if ld, ok := s.repl.v.(*ssa.UnOp); ok && ld.Op == token.MUL {
 			if ia, ok := ld.X.(*ssa.IndexAddr); ok {
-				par, isPar := ia.X.(*ssa.Parameter)
-				okRepl = isPar && paramIndex(par) == matches && stripConv(ia.Index) == s.idx
+				i2, off2 := c42Affine(rvalG4{ia.Index, s.repl.env})
+				okRepl = isParam(peelG4(rvalG4{ia.X, s.repl.env}), matches) && sameG4(i2, ctr) && off2 == off
 			}
 		}
-		c.Check("C42.group.binding", key+"$G<i> is replaced by matches[i] for the same i", okRepl, p.Pos(s.call.Pos()), desc(s.repl))
+		c.Check("C42.group.binding", key+"$G<i> is replaced by matches[i] for the same i", okRepl, p.Pos(s.call.Pos()), descG4(s.repl))
 	}
 
-	// query last: the $MTX_QUERY result flows only to returns
+	// query last: the $MTX_QUERY result flows only to the resolver's return
+	// (through phis, the return of the new helper it is computed in, or a new
+	// helper it is handed to): no substitution rescans it
 	for _, s := range substs {
 		if s.kind != "$MTX_QUERY" {
 			continue
 		}
-		onlyRet := true
-		for _, r := range *s.call.Referrers() {
-			if _, ok := r.(*ssa.Return); !ok {
-				onlyRet = false
-			}
-		}
-		c.Check("C42.query_last", key+"the client query is substituted last and its result is returned without rescanning", onlyRet && len(*s.call.Referrers()) > 0, p.Pos(s.call.Pos()), "")
+		c.Check("C42.query_last", key+"the client query is substituted last and its result is returned without rescanning", flowsOnlyToReturnG4(rvalG4{s.call, s.env}), p.Pos(s.call.Pos()), "")
 	}
+}
+
+// c42Affine splits an integer value into base + constant (x, x+1, x-1, 1+x,
+// nested), looking through conversions, named locals and new helpers.
+func c42Affine(x rvalG4) (rvalG4, int64) {
+	var off int64
+	for n := 0; n < 16; n++ {
+		x = peelG4(x)
+		bo, ok := x.v.(*ssa.BinOp)
+		if !ok || (bo.Op != token.ADD && bo.Op != token.SUB) {
+			return x, off
+		}
+		if k, isK := constIntB(peelG4(rvalG4{bo.Y, x.env}).v); isK {
+			if bo.Op == token.SUB {
+				k = -k
+			}
+			off += k
+			x = rvalG4{bo.X, x.env}
+			continue
+		}
+		if k, isK := constIntB(peelG4(rvalG4{bo.X, x.env}).v); isK && bo.Op == token.ADD {
+			off += k
+			x = rvalG4{bo.Y, x.env}
+			continue
+		}
+		return x, off
+	}
+	return x, off
 }
 
 func c42DollarFree(c *Ctx, p *Prog) {
